@@ -405,6 +405,76 @@ func allScenarios() []scenario {
 		}
 		return &instance{shared: map[string]interface{}{"graph": g}, threads: wideGraphThreads(g)}
 	}})
+	out = append(out, scenario{"graph-shared-wide-dense", func() *instance {
+		// the same wide set of read-only functions on a shared DenseGraph, plus the views and degree observers
+		n, edges := testGraphEdges()
+		g := graph.NewDense(n, nil)
+		for _, e := range edges {
+			g.AddEdge(e[0], e[1])
+		}
+		ths := wideGraphThreads(g)
+		ths[0] = opsBody(
+			func() string {
+				v := graph.Complement(g)
+				return fmt.Sprint(v.Degrees(), graph.MinDegree(v), graph.MaxDegree(v), v.M(), g.Degrees())
+			},
+			func() string { a, b := graph.ChromaticIndex(g); return fmt.Sprint(a, b, g.Degrees(), graph.MinDegree(g)) },
+			func() string { ok, c := graph.IsKColorable(g, 3); return fmt.Sprint(ok, c, graph.IsProperColouring(g, c)) },
+		)
+		return &instance{shared: map[string]interface{}{"graph": g}, threads: ths}
+	}})
+	for _, rep := range []string{"dense", "sparse"} {
+		rep := rep
+		out = append(out, scenario{"tree-shared-" + rep, func() *instance {
+			// one shared tree: Pruefer encoding, degree observers, complement view, labelling
+			var t graph.EditableGraph = graph.NewDense(7, nil)
+			if rep == "sparse" {
+				t = graph.NewSparse(7, nil)
+			}
+			for _, e := range [][2]int{{0, 1}, {1, 2}, {2, 3}, {3, 4}, {2, 5}, {5, 6}} {
+				t.AddEdge(e[0], e[1])
+			}
+			return &instance{shared: map[string]interface{}{"tree": t}, threads: []threadBody{
+				opsBody(
+					func() string { return fmt.Sprint(graph.PruferEncode(t)) },
+					func() string { return fmt.Sprint(t.Degrees(), graph.MinDegree(t), graph.MaxDegree(t)) },
+				),
+				opsBody(
+					func() string { return fmt.Sprint(t.Degrees(), graph.Diameter(t), graph.Radius(t)) },
+					func() string { v := graph.Complement(t); return fmt.Sprint(v.Degrees(), graph.MinDegree(v), t.Degrees()) },
+				),
+				opsBody(
+					func() string { return fmt.Sprint(graph.CanonicalIsomorph(t), graph.PruferEncode(t)) },
+					func() string { return fmt.Sprint(graph.Degeneracy(t)) + fmt.Sprint(t.Degrees()) },
+				),
+			}}
+		}})
+	}
+	out = append(out, scenario{"dawg-shared-arguments", func() *instance {
+		// the goroutines build their searchers and lookups from the SAME read-only byte slices
+		d, err := dawg.New(wordsBytes("opts", "post", "pots", "spot", "stop", "tops"))
+		if err != nil {
+			panic(err)
+		}
+		word := []byte("stop")
+		pat := []byte("t?ps")
+		return &instance{shared: map[string]interface{}{"dawg": d, "word": word, "pattern": pat}, threads: []threadBody{
+			opsBody(
+				func() string { return searchObs(d, dawg.NewAnagramSearcher(word, '?')) },
+				func() string { return searchObs(d, dawg.NewAnagramSearcher(pat, '?')) },
+			),
+			opsBody(
+				func() string { r, ok := d.Lookup(word); return fmt.Sprint(r, ok, string(word)) },
+				func() string { return searchObs(d, dawg.NewPatternSearcher(pat, '?')) + string(pat) },
+			),
+			opsBody(
+				func() string { return searchObs(d, dawg.NewPatternSearcher(word, '?')) },
+				func() string {
+					return searchObs(d, dawg.NewPatternSearcher(pat, '?'), dawg.NewAnagramSearcher(word, '?')) + string(word)
+				},
+			),
+		}}
+	}})
 	out = append(out, scenario{"constructors-and-misc", func() *instance {
 		mk := func(seed int64) threadBody {
 			return opsBody(
